@@ -78,6 +78,11 @@ bool IPv4Stream::is_complete() const {
 }
 
 PDU* IPv4Stream::allocate_pdu() const {
+    // An IPv4 datagram holds at most 65535 bytes, header included (RFC 791): fragments
+    // that reach beyond that don't belong to any datagram
+    if (first_fragment_.header_size() + total_size_ > 65535) {
+        return 0;
+    }
     PDU::serialization_type buffer;
     buffer.reserve(total_size_);
     // Check if we actually have all the data we need. Otherwise return nullptr;
